@@ -396,3 +396,9 @@ ADDENDA11 = {
 }
 for _p, _t in ADDENDA11.items():
     CLAIMED[_p]['text'] = CLAIMED[_p]['text'].rstrip() + ' ' + _t
+
+ADDENDA12 = {
+    'C19': "(U, extended) the helper objects a builder loads from one specification variable in several branches (to read initial values) are loaded with the same overrides.",
+}
+for _p, _t in ADDENDA12.items():
+    CLAIMED[_p]['text'] = CLAIMED[_p]['text'].rstrip() + ' ' + _t
